@@ -27,6 +27,10 @@ var solvers = []solverSpec{
 	{"z3", func(f string, t, seed int) []string {
 		return []string{"z3", fmt.Sprintf("-T:%d", t), fmt.Sprintf("smt.random_seed=%d", seed), f}
 	}},
+	// same solver, relevancy propagation off: decides several array/quantifier goals in ~1 s that take the default >15 s
+	{"z3-new-r0", func(f string, t, seed int) []string {
+		return []string{"z3-new", fmt.Sprintf("-T:%d", t), "smt.relevancy=0", fmt.Sprintf("smt.random_seed=%d", seed), f}
+	}},
 }
 
 type solveOpts struct {
@@ -89,25 +93,99 @@ func discharge(o *Obligation, opts solveOpts) {
 		o.Status, o.Output = "error", err.Error()
 		return
 	}
-	ctx, cancel := context.WithCancel(context.Background())
-	defer cancel()
-	ch := make(chan solverAnswer, len(solvers))
-	for _, sp := range solvers {
-		go func(sp solverSpec) { ch <- runSolver(ctx, sp, file, opts.timeoutS, opts.seed) }(sp)
+	files := []string{file}
+	tags := []string{""}
+	if o.Standalone == "" {
+		// weaker variants (each drops premises, so `unsat` on any of them still proves the obligation):
+		// without the lemmas (un-patterned lemma quantifiers can derail goals that do not need them), and with
+		// recursive spec functions left uninterpreted (solvers may unfold define-fun-rec on symbolic arguments forever).
+		add := func(tag string, lemmas, opaque bool) {
+			text := o.queryWith(lemmas, opaque)
+			if text == q {
+				return
+			}
+			for _, fl := range files[1:] {
+				if old, _ := os.ReadFile(fl); string(old) == text {
+					return
+				}
+			}
+			p := filepath.Join(opts.outDir, fileSafe(o.Name)+"."+tag+".smt2")
+			os.WriteFile(p, []byte(text), 0o644)
+			files = append(files, p)
+			tags = append(tags, tag)
+		}
+		if o.hasLemmas() {
+			add("nolemmas", false, false)
+		}
+		add("opaque", true, true)
+		if o.hasLemmas() {
+			add("opaque-nolemmas", false, true)
+		}
+	}
+	// The portfolio is run in two stages so that the many easy obligations cost two short solver runs each, and the
+	// number of solver processes alive at once is capped (procSem) - oversubscribing the cores turns 1 s proofs into timeouts.
+	type job struct {
+		sp solverSpec
+		fi int
+		to int
+	}
+	last := len(files) - 1
+	stage1 := []job{{solvers[0], last, minInt(2, opts.timeoutS)}, {solvers[1], 0, minInt(2, opts.timeoutS)}}
+	var stage2 []job
+	for fi := len(files) - 1; fi >= 0; fi-- {
+		for _, si := range []int{3, 0, 2, 1} {
+			stage2 = append(stage2, job{solvers[si], fi, opts.timeoutS})
+		}
+	}
+	if opts.all {
+		stage1 = nil
 	}
 	var answers []solverAnswer
 	var decided *solverAnswer
-	for range solvers {
-		a := <-ch
-		answers = append(answers, a)
-		if (a.answer == "unsat" || a.answer == "sat") && decided == nil {
-			ac := a
-			decided = &ac
-			if !opts.all {
-				cancel()
-				break
+	runStage := func(jobs []job) {
+		ctx, cancel := context.WithCancel(context.Background())
+		defer cancel()
+		ch := make(chan solverAnswer, len(jobs))
+		for _, j := range jobs {
+			go func(j job) {
+				select {
+				case procSem <- struct{}{}:
+				case <-ctx.Done():
+					ch <- solverAnswer{solver: j.sp.name, answer: "cancelled"}
+					return
+				}
+				a := runSolver(ctx, j.sp, files[j.fi], j.to, opts.seed)
+				<-procSem
+				if j.fi >= 1 {
+					a.solver += "(" + tags[j.fi] + ")"
+					if a.answer == "sat" {
+						a.answer = "unknown" // a model of the weaker premise set refutes nothing
+					}
+				}
+				ch <- a
+			}(j)
+		}
+		for range jobs {
+			a := <-ch
+			if a.answer == "cancelled" {
+				continue
+			}
+			answers = append(answers, a)
+			if (a.answer == "unsat" || a.answer == "sat") && decided == nil {
+				ac := a
+				decided = &ac
+				if !opts.all {
+					cancel()
+					return
+				}
 			}
 		}
+	}
+	if len(stage1) > 0 {
+		runStage(stage1)
+	}
+	if decided == nil || opts.all {
+		runStage(stage2)
 	}
 	var logb strings.Builder
 	sawSat, sawUnsat := false, false
@@ -196,6 +274,30 @@ func dischargeAll(obls []*Obligation, opts solveOpts, par int) {
 				o2.timeoutS *= 2
 				o2.seed += 7
 				discharge(o, o2)
+			}
+			if o.Status == "unknown" && !o.MustFail && len(o.Cases) >= 2 {
+				// case split over the edges entering the obligation's block: proved iff every case is proved
+				all := true
+				var secs float64
+				var log strings.Builder
+				log.WriteString(o.Output)
+				for i, cs := range o.Cases {
+					sub := *o
+					sub.Cases = nil
+					sub.Name = fmt.Sprintf("%s.case%d", o.Name, i+1)
+					sub.PC = and(o.PC, cs)
+					discharge(&sub, oo)
+					fmt.Fprintf(&log, "case %d (%s): %s\n%s", i+1, cs, sub.Status, sub.Output)
+					secs += sub.Seconds
+					if sub.Status != "proved" {
+						all = false
+						break
+					}
+				}
+				o.Output = log.String()
+				if all {
+					o.Status, o.Solver, o.Seconds = "proved", "case-split", secs
+				}
 			}
 		}(o)
 	}
